@@ -35,8 +35,3 @@ impl HeartbeatTimers {
         ensures final(self).started@, final(self).timer.armed(), final(self).rx_marks@ == old(self).rx_marks@, final(self).tx_marks@ == old(self).tx_marks@,
     { unimplemented!() }
 }
-/// mirror of std::time::Duration as far as Inner::start_heartbeats needs it
-pub struct Duration { pub secs: u64 }
-impl Duration {
-    pub fn from_secs(secs: u64) -> (r: Duration) ensures r.secs == secs { Duration { secs } }
-}
